@@ -182,6 +182,13 @@ def cases(tier):
         for fmt in ('json', 'json5'):
             yield fmt, 'number', [n]
             yield fmt, 'number', {'n': n}
+    # scalars that are equal in Python but are different data (0 / 0.0 / -0.0 / false, 1 / 1.0 / true), side by side
+    lookalikes = (0, 0.0, -0.0, False, 1, 1.0, True)
+    for x in lookalikes:
+        for y in lookalikes:
+            for fmt in ('json', 'json5', 'yaml', 'plist'):
+                yield fmt, 'look-alike scalars', [x, y]
+                yield fmt, 'look-alike scalars', {'a': x, 'b': [y]}
     # -- CSV tables
     cells = CSV_CELLS[:8] if q else CSV_CELLS
     rows = []
